@@ -1,6 +1,6 @@
 """C09 -- rendering a docstring keeps its text: nothing is lost, altered or reordered."""
 from __future__ import annotations
-import json, re
+import json, random, re
 from typing import Any, Dict, List, Optional, Tuple
 import lib
 from lib import PropertyCheck, Violation, enc, dec, txt
@@ -631,6 +631,11 @@ class Check(PropertyCheck):
         out: List[Violation] = []
         n = 1200 if self.tier == 'quick' else 30000
         cases = list(G.RST_FIELD_CORPUS) + [G.gen_rst_fieldlist(self.rng) for _ in range(n)]
+        # a stream of its own (the main stream is left as it was): definition-list terms that say more than the one identifier
+        st = self.rng.getstate()
+        r2 = random.Random(self.rng.getrandbits(64))
+        self.rng.setstate(st)
+        cases += [G.gen_rst_deflist_terms(r2) for _ in range(200 if self.tier == 'quick' else 4000)]
         obs = lib.run_impl_worker('c09_rstfields.py', cases, jobs=16)
         ins = [enc([o['in'], o['lowers']]) for o in obs]
         mod = self.model('rstfields', ins)
